@@ -58,6 +58,20 @@ SweepOp(k) ==
   IN [op |-> "Convert", name |-> NameOrder[1], q |-> [unit |-> u, m |-> Amount(u, R(1..12))], unit2 |-> u2,
       stock |-> [name |-> NameOrder[1], used |-> NoQ, remaining |-> NoQ]]
 
+\* a random permutation of a sequence
+RECURSIVE Shuffle(_, _)
+Shuffle(z, s) == IF s = <<>> THEN <<>>
+                 ELSE LET i == RandomElement(1..Len(s))
+                      IN <<s[i]>> \o Shuffle(z, [j \in 1..(Len(s) - 1) |-> IF j < i THEN s[j] ELSE s[j + 1]])
+\* the items of one kind spread over options: all in one, one each, or split in two
+Groups(z, items) ==
+  IF items = <<>> THEN <<>>
+  ELSE LET how == Pick(z, <<"one", "each", "split">>)
+           i == RandomElement(1..Len(items))
+       IN IF how = "one" \/ (how = "split" /\ i = Len(items)) THEN <<items>>
+          ELSE IF how = "each" THEN [j \in 1..Len(items) |-> <<items[j]>>]
+          ELSE <<SubSeq(items, 1, i), SubSeq(items, i + 1, Len(items))>>
+
 Prog(k) ==
   \* tuples, not [j \in .. |-> ..]: TLC re-evaluates a function body at every application
   LET fams == <<Pick(k, Families), Pick(k, Families), Pick(k, Families)>>
@@ -65,10 +79,16 @@ Prog(k) ==
       ckeep == <<Flip(k, 35), Flip(k, 35), Flip(k, 35)>>
       idx == SelectSeq(<<1, 2, 3>>, LAMBDA j : keep[j])
       cidx == SelectSeq(<<1, 2, 3>>, LAMBDA j : ckeep[j])
+      stocks == SelectSeq([j \in 1..Len(idx) |-> StockRec(k, NameOrder[idx[j]], fams[idx[j]])], LAMBDA x : TRUE)
+      sg == Groups(k, stocks)
+      cg == Groups(k, [j \in 1..Len(cidx) |-> NameOrder[cidx[j]]])
+      none == [kind |-> "clock", stocks |-> <<>>, cons |-> <<>>, via |-> "initial"]
+      \* stock, consumables and a plain resource option, spread over several options, in a random order
+      opts == Shuffle(k, [j \in 1..Len(sg) |-> [none EXCEPT !.kind = "stock", !.stocks = sg[j], !.via = Pick(k, <<"initial", "initial", "option">>)]]
+                         \o [j \in 1..Len(cg) |-> [none EXCEPT !.kind = "cons", !.cons = cg[j], !.via = Pick(k, <<"initial", "initial", "option">>)]]
+                         \o (IF Flip(k, 40) THEN <<none>> ELSE <<>>))
   IN [model |-> "vending", n |-> k,
-      cfg |-> [via |-> Pick(k, <<"initial", "initial", "option">>),
-               stocks |-> [j \in 1..Len(idx) |-> StockRec(k, NameOrder[idx[j]], fams[idx[j]])],
-               cons |-> [j \in 1..Len(cidx) |-> NameOrder[cidx[j]]]],
+      cfg |-> [opts |-> opts, stocks |-> ConfState(opts).inv, cons |-> ConfState(opts).cons],
       \* every walk starts with one Convert of the all-pairs sweep (walk k takes pair k of the |Units|^2 pairs)
       ops |-> <<SweepOp(k)>> \o [j \in 1..R(10..MaxOps) |-> Op(k, fams)]]
 
